@@ -16,7 +16,7 @@ LEVEL_TEXT = ("Theorems for every response, capacity S and prior contents: when 
               "contents are never disturbed; the one-byte key-handle length is exact because the regenerated capacity is 255; 0x04||x||y never panics within "
               "the declared capacities. Differential run with an independent layout oracle.")
 CAPS = [0, 1, 2, 3, 4, 5, 6, 7, 8, 9, 10, 16, 32, 64, 65, 66, 67, 68, 69, 70, 71, 72, 73, 74, 75, 76, 77, 78, 79, 80, 100, 128, 130, 137, 138, 139, 140,
-        141, 142, 200, 256, 300, 320, 321, 322, 323, 400, 512, 1024, 1100, 1345, 1346, 1347, 1348, 1400, 1417, 1418, 1419, 1420, 2048, 3072, 7609]
+        141, 142, 200, 256, 300, 320, 321, 322, 323, 400, 512, 1024, 1100, 1345, 1346, 1347, 1348, 1400, 1417, 1418, 1419, 1420, 2048, 3072, 7609, 70000]
 
 
 def feature_sets(tier):
@@ -94,6 +94,13 @@ def cases(tier, rng, schema, feats):
         for cap in (0, 1, 2, 3, 4, 5, 6, 7, 8, 9, 10, 16):
             if len(prior) <= cap:
                 add(cap, prior, "version", (b"U2F_V2",))
+    # a very large caller buffer, pre-filled beyond 2^16 bytes: the response still fits and must be appended (a limit on the WHOLE
+    # buffer instead of on the appended bytes would report failure)
+    for plen in (65100, 65500, 65529, 65530, 65531, 65536, 68000):
+        prior = b"\xee" * plen
+        add(70000, prior, "version", (b"U2F_V2",))
+        add(70000, prior, "authenticate", (1, 7, b"\x30" * 70))
+        add(70000, prior, "register", (5, b"\x04" + b"\x11" * 64, b"\x22" * 64, b"\x33" * 300, b"\x44" * 70))
     for xl in range(0, 33, 1 if tier != "quick" else 8):
         for yl in (0, 1, 31, 32):
             out.append(f"C09.new.{n}\tu2fnew\t{hx(rng.bytes(xl))}\t{hx(rng.bytes(yl))}")
